@@ -46,6 +46,16 @@ pub fn take_memory() -> Vec<String> {
     }
 }
 
+/// Copy of the events recorded in memory from position `from` on (nothing is
+/// cleared); lets a driver wait for the server to become quiescent.
+pub fn peek_memory(from: usize) -> Vec<String> {
+    let st = lock();
+    match &st.sink {
+        Sink::Memory(v) => v.iter().skip(from).cloned().collect(),
+        _ => Vec::new(),
+    }
+}
+
 /// Append one event.  `fields` must be a JSON object (or null).
 pub fn emit(ev: &str, fields: serde_json::Value) {
     let mut st = lock();
